@@ -11,3 +11,11 @@ Lemma tie_banner_products : forall v,
   sw_parse_str (String.append "tinyssh_" v) = Some (mkS None product_TinySSH v None)
   /\ sw_parse_str (String.append "PuTTY_Release_" v) = Some (mkS None product_PuTTY v None).
 Proof. intros v. split; reflexivity. Qed.
+
+(* utils.py: the character filters of is_print_ascii / to_print_ascii as they read now (T1c translation of the two lambda bodies) and the replacement character *)
+Lemma tie_printable : forall z, printable z = src_is_print_ascii_filter z /\ printable z = src_to_print_ascii_filter z.
+Proof.
+  intros z. unfold printable, src_is_print_ascii_filter, src_to_print_ascii_filter. rewrite !Z.geb_leb. split; apply andb_comm.
+Qed.
+Lemma tie_replacement : forall z, printable z = false -> pchar z = ascii_of_nat (Z.to_nat src_to_ascii_replacement).
+Proof. intros z H. unfold pchar. rewrite H. reflexivity. Qed.
